@@ -79,9 +79,9 @@ if a.store and res.get('confirmed'):
             am = {'raw': open(mp).read()}
     meta = {'property': a.prop, 'breaks': am.get('breaks'), 'needs': am.get('needs'), 'files': am.get('files'),
             'author': 'independent sub-agent given only the property text and a scratch worktree',
-            'author_tests_run': am.get('tests_run'),
+            'author_tests_run': am.get('tests_run') or am.get('author_tests_run'),
             'confirmed_by_us': {k: res.get(k) for k in ('repo_head', 'demo_clean_rc', 'demo_patched_rc', 'demo_patched_tail', 'tests_cmd', 'tests_tail')},
             'our_check': {k: res.get(k) for k in ('check_rc', 'check_violation', 'check_detail', 'caught')},
-            'how_to_rerun': 'python3 tools/seedcheck.py %s seeded/%s-%s X   (with patch.diff/demo.py copied to X.diff/demo_X.py), or: git -C /repo apply seeded/%s-%s/patch.diff; ./check %s; git -C /repo checkout -- .' % (a.prop, a.prop, a.tag, a.prop, a.tag, a.prop)}
+            'how_to_rerun': 'python3 tools/seedcheck.py %s seeded/%s-%s X   (with patch.diff/demo.py copied to X.diff/demo_X.py), or: git -C /repo apply seeded/%s-%s/patch.diff; ./check %s; git -C /repo checkout -- .' % (a.prop, a.prop, a.as_tag or a.tag, a.prop, a.as_tag or a.tag, a.prop)}
     json.dump(meta, open(os.path.join(d, 'meta.json'), 'w'), indent=1)
 print(json.dumps(res, indent=1))
